@@ -203,7 +203,9 @@ struct World {
         if (!cfg) throw std::logic_error("C36: unknown configuration " + label);
         pk::NetOpts no;
         no.blocksonly = cfg->blocksonly;
+        double t0 = vx::elapsed();
         net = std::make_unique<pk::Net>(n, no);
+        if (getenv("C36_TIMING")) fprintf(stderr, "T net %.1fms\n", (vx::elapsed() - t0) * 1e3);
         if (cfg->type == ConnectionType::PRIVATE_BROADCAST) (void)net->peerman->InitiateTxBroadcastPrivate(txs["pb"]);
         pk::PeerSpec s;
         s.type = cfg->type;
@@ -212,6 +214,7 @@ struct World {
         // a feeler is disconnected by the node itself as soon as its version arrives: its messages can only come before that
         s.stage = cfg->type == ConnectionType::FEELER ? pk::Stage::PRE_VERSION : pk::Stage::COMPLETE;
         peer = &net->AddPeer(s);
+        if (getenv("C36_TIMING")) fprintf(stderr, "T net+peer %.1fms\n", (vx::elapsed() - t0) * 1e3);
         if (peer->disconnect_flag() || net->Discouraged(*peer))
             fs.report("C36-handshake-disconnect:" + label, "peer marked for disconnection or discouraged by the plain version handshake");
         if (s.stage == pk::Stage::COMPLETE && !peer->node->fSuccessfullyConnected)
